@@ -22,12 +22,29 @@ pure translation, identity.
 Histories: the result of a fit must not depend on earlier fits. Every case is evaluated from a freshly reloaded
 `shelxfile.fit.quatfit` (so a replay of one case sees exactly the state the run saw) and carries its own `prelude`:
 0..3 earlier calls of qtrfit()/fit_fragment() with fewer / more / equally many points, whose results are discarded.
-  seq    the module stays loaded over a whole history of 2..6 calls (a replay carries the whole history): the SAME
-         fragment and subset - the caller's very list objects, as in `for site in sites: fit_fragment(frag, src, site)` -
-         fitted again onto the same and onto different targets, the same fragment with another subset, other fragments
-         and plain qtrfit() calls in between, qtrfit() repeated on the same lists. Every step is judged like a frag / fit
-         case (its result must not depend on what was fitted before), and fit_fragment()/qtrfit() must leave the
-         caller's lists as they were (otherwise the caller's next fit of that fragment starts from other coordinates).
+  seq    the module stays loaded over a whole history of 2..8 calls (a replay carries the whole history) and the CALLER'S
+         LIST OBJECTS live through it (`World`): one list object per fragment / source list / target list, and in mode
+         `aliased` the source list holds the fragment's own row objects (`source_atoms = [fragment_atoms[0], ...]`, the
+         library's own example). Steps: the same call again; the same fragment + subset onto a new target list / onto the
+         same target list with new numbers written into it; the fragment's coordinates CHANGED IN PLACE (translated,
+         rotated, one fitted / one other atom moved, another unit of length, two fitted atoms exchanged) and fitted again
+         with the source list kept or built again; another selection of atoms in a new list / put into the source list
+         the caller holds; other fragments; qtrfit() on the same lists, repeated, and after their numbers were changed in
+         place. Every step is judged like a frag / fit case on the numbers the lists hold at that moment (its result must
+         not depend on what was fitted before nor on which objects carry the numbers), fit_fragment()/qtrfit() must leave
+         the caller's lists as they were, and the whole history is run through the heap model `runH` (fit_fragment
+         statement by statement on rows shared and written in place; theorems fitFragmentH_eq / _frame,
+         history_reads_current: = fitFragment of the current numbers) and compared step by step.
+  The frag stream builds its arguments the same three ways (`alias`: copies / source rows = fragment rows / in addition
+  the target list IS the source list where both hold the same numbers).
+Systematic part (first, identical in both tiers — the quick tier reaches every class by construction):
+  (1) 7 idealised polyhedra x the 24 rotations of the cube as exact signed permutations (zero / exactly equal diagonal
+      elements and exactly vanishing off-diagonal elements of the form: q == 0, equal eigenvalues, all-zero diagonal),
+      some in other units;  (2) the unit of length decade by decade 1e-10 .. 1e+6, fit and frag, exact and noisy
+      (theorems qtrfit_scale_invariant, fit_fragment_unit_free);  (3) rotation angles 1e-1 .. 1e-18 and noise 1e-16 .. 1e-6;
+  (3b) idealised polyhedra with targets off by 1e-17 .. 1e-13 (negligible non-zero off-diagonal elements in the first
+      sweep);  (4) fit -> change in place -> fit for every kind of change x source list kept / rebuilt x aliased / pooled
+      rows, target / selection / qtrfit arguments changed in place, plain repetitions in all three object modes.
 Only what the property states is observed (coordinates, matrix, RMSD; the sweep counter is not).
 """
 import copy
@@ -193,17 +210,21 @@ def make_prelude(rng):
     return pre
 
 
-def make_fit_case(rng, prelude=True):
+def make_fit_case(rng, prelude=True, scale=None, noise=None, shape=None, rot=None):
+    """`scale`, `noise`, `shape`, `rot` = (quaternion, kind) fix what is otherwise drawn (systematic ladders)"""
     n = rng.choice([3, 3, 4, 5, 6, 8, 10, 14, 20, 30, rng.randint(3, 30)])
-    shape = rng.choices(['box', 'planar', 'grid', 'ideal'], [6, 1, 2, 1])[0]
+    shape = shape or rng.choices(['box', 'planar', 'grid', 'ideal'], [6, 1, 2, 1])[0]
     src = rand_points(rng, n, shape)
     src = shift(src, cen(src), -1.0)
-    q, qkind = make_rotation(rng)
+    q, qkind = rot or make_rotation(rng)
+    forced_noise = noise
     if shape == 'ideal' and rng.random() < 0.7:
         q, qkind = list(rng.choice(SPECIAL_QUATS)), 'special'
     noise = rng.choice([0.0, 0.0, 0.0, 1e-4, 0.02, 0.3, 2.0])
     if shape == 'ideal' and rng.random() < 0.7:
         noise = 0.0
+    if forced_noise is not None:
+        noise = forced_noise
     mirror = noise > 0 and rng.random() < 0.1
     tgt = apply(quat_to_R(q), src)
     if shape == 'ideal' and rng.random() < 0.5:
@@ -220,7 +241,7 @@ def make_fit_case(rng, prelude=True):
     if noise:
         tgt = [[c + rng.gauss(0, noise) for c in p] for p in tgt]
     tgt = shift(tgt, cen(tgt), -1.0)
-    k = rand_scale(rng)
+    k = rand_scale(rng) if scale is None else scale
     if k != 1.0:
         src, tgt = scaled(src, k), scaled(tgt, k)
         src, tgt = shift(src, cen(src), -1.0), shift(tgt, cen(tgt), -1.0)
@@ -228,7 +249,8 @@ def make_fit_case(rng, prelude=True):
                 sseed=rng.getrandbits(48), prelude=make_prelude(rng) if prelude else [])
 
 
-def make_frag_case(rng, prelude=True):
+def make_frag_case(rng, prelude=True, scale=None, noise=None, motion=None):
+    forced_noise, forced_motion = noise, motion
     n = rng.choice([3, 4, 5, 7, 10, 14, 20, 30, rng.randint(3, 30)])
     shape = rng.choices(['box', 'grid'], [3, 1])[0]
     frag = rand_points(rng, n, shape)
@@ -243,6 +265,7 @@ def make_frag_case(rng, prelude=True):
     # the rigid motion p -> R(p - c0) + c0 + t, recorded as  R(p - pc) + trans  (trans = image of the subset centroid)
     motion = rng.choices(['general', 'about-centroid', 'about-origin', 'about-point', 'translation', 'identity'],
                          [8, 4, 2, 2, 2, 1])[0]
+    motion = forced_motion or motion
     if motion in ('translation', 'identity'):
         q, qkind = [1.0, 0.0, 0.0, 0.0], 'special'
     elif qkind == 'special' and q == [1.0, 0.0, 0.0, 0.0] and motion == 'about-centroid':
@@ -260,16 +283,26 @@ def make_frag_case(rng, prelude=True):
     else:
         trans = shift([pc], [rng.uniform(-30, 30) for _ in range(3)])[0]
     noise = rng.choice([0.0, 0.0, 0.0, 1e-4, 0.02, 0.3])
+    if forced_noise is not None:
+        noise = forced_noise
     tgt = shift(apply(R, shift(src, pc, -1.0)), trans)
+    if motion == 'identity' and not noise:
+        tgt = [list(p) for p in src]      # the fragment fitted onto itself: the very same numbers
     if noise:
         tgt = [[c + rng.gauss(0, noise) for c in p] for p in tgt]
         if motion in ('about-centroid', 'identity'):   # keep the centroids coincident
             tgt = shift(tgt, [a - b for a, b in zip(pc, cen(tgt))])
-    k = rand_scale(rng)
+    k = rand_scale(rng) if scale is None else scale
     if k != 1.0:
         frag, tgt, trans = scaled(frag, k), scaled(tgt, k), [c * k for c in trans]
+    # how the caller builds the arguments: `rows` = the source list holds the fragment's own row objects
+    # (`source_atoms = [fragment_atoms[0], fragment_atoms[1], fragment_atoms[10]]`, as in the library's example),
+    # `rows+target` = in addition the target list IS the source list (only where both hold the same numbers), `none` = copies
+    alias = rng.choice(['none', 'rows', 'rows'])
+    if motion == 'identity' and not noise and rng.random() < 0.5:
+        alias = 'rows+target'
     return dict(kind='frag', frag=frag, idx=idx, tgt=tgt, quat=q, qkind=qkind, trans=trans, noise=noise, shape=shape,
-                motion=motion, scale=k, sseed=rng.getrandbits(48), prelude=make_prelude(rng) if prelude else [])
+                motion=motion, scale=k, alias=alias, sseed=rng.getrandbits(48), prelude=make_prelude(rng) if prelude else [])
 
 
 # ------------------------------------------------------------------------------------------------
@@ -314,9 +347,11 @@ def impl_fit(case):
 def impl_frag(case):
     Q = fresh_module(case)
     frag = copy.deepcopy(case['frag'])
-    src = [list(frag[i]) for i in case['idx']]
+    alias = case.get('alias', 'none')
+    src = [list(frag[i]) for i in case['idx']] if alias == 'none' else [frag[i] for i in case['idx']]
+    tgt = src if alias == 'rows+target' else copy.deepcopy(case['tgt'])
     try:
-        coords, r = Q.fit_fragment(frag, src, copy.deepcopy(case['tgt']))
+        coords, r = Q.fit_fragment(frag, src, tgt)
         return dict(coords=[list(map(float, p)) for p in coords], rms=float(r))
     except Exception as e:  # noqa
         return {'raise': ename(e)}
@@ -517,6 +552,32 @@ def eval_frag(ctx, case, obs, mod, prefix='C20|frag', pcase=None, stream='frag',
         ctx.fail(sig0 + '|model-rms', f'fit_fragment RMSD {obs["rms"]!r} differs from the model `fitFragment` {m["rms"]!r}', payload, kind='correspondence')
 
 
+def eval_hist(ctx, case, outs, hist):
+    """the whole history against the heap model (`runH`: fit_fragment statement by statement on rows shared and changed in
+    place as the caller shares and changes them); `specH` = fitFragment of the current numbers (theorem
+    history_reads_current: the two are equal)"""
+    if hist['model'] != hist['spec']:
+        raise core.LeanError(f'C20: runH and specH differ on a history (theorem history_reads_current): {hist}')
+    k = 0
+    for si, (st, o) in enumerate(zip(case['steps'], outs)):
+        if st['kind'] != 'frag':
+            continue
+        m, k = hist['model'][k], k + 1
+        if 'raise' in o:
+            continue
+        pcase = dict(case, steps=case['steps'][:si + 1])
+        src = [st['frag'][i] for i in st['idx']]
+        mag = max(abs(c) for p in st['frag'] + st['tgt'] for c in p)
+        size = max(math.sqrt(ssd(src, [cen(src)] * len(src)) / len(src)), 1e-6 * mag)
+        payload = dict(case=pcase, stream='seq', actual=o, model=m)
+        if m is None:
+            ctx.fail(f'C20|seq|{st["how"]}|heap-model-raises', 'the model of the history raises where fit_fragment returns', payload, kind='correspondence')
+        elif st['noise'] < 1.0 and any(not core.close(a, b, 1e-7 * size, 0) for p, t in zip(o['coords'], m['coords']) for a, b in zip(p, t)) \
+                or not core.close(o['rms'], m['rms'], 1e-8 * size, 1e-8):
+            ctx.fail(f'C20|seq|{st["how"]}|heap-model', f'step {si} ({st["how"]}, objects {seq_mode(case)}): fit_fragment differs from the model of the '
+                     f'same history on the caller\'s objects (`runH`): RMSD {o["rms"]!r} vs {m["rms"]!r}', payload, kind='correspondence')
+
+
 def triple(pts, a, b, c, d):
     u = [pts[b][i] - pts[a][i] for i in range(3)]
     v = [pts[c][i] - pts[a][i] for i in range(3)]
@@ -537,68 +598,199 @@ def collinear(pts):
     return m < 1e-6 * s * s
 
 
-def retarget(rng, base):
+def retarget(rng, base, tid=None):
     """the same fragment and subset (identical coordinates) onto another rigidly moved (+ noisy) copy"""
-    other = make_frag_case(rng, prelude=False)   # only its motion is used
     frag, idx = base['frag'], base['idx']
     src = [frag[i] for i in idx]
     pc = cen(src)
     k = base.get('scale', 1.0)
-    q = other['quat']
+    q, qkind = make_rotation(rng)
     trans = [rng.uniform(-30, 30) * k for _ in range(3)] if rng.random() < 0.7 else list(pc)
     noise = rng.choice([0.0, 0.0, 1e-4, 0.02, 0.3])
     tgt = shift(apply(quat_to_R(q), shift(src, pc, -1.0)), trans)
     if noise:
         tgt = [[c + rng.gauss(0, noise * k) for c in p] for p in tgt]
-    return dict(base, tgt=tgt, quat=q, qkind=other['qkind'], trans=trans, noise=noise, motion='general' if trans != list(pc) else 'about-centroid',
-                sseed=rng.getrandbits(48), prelude=[])
+    return dict(base, tgt=tgt, quat=q, qkind=qkind, trans=trans, noise=noise, motion='general' if trans != list(pc) else 'about-centroid',
+                tid=tid or new_label(rng, 'T'), sseed=rng.getrandbits(48), prelude=[])
+
+
+def new_label(rng, prefix):
+    return f'{prefix}{rng.getrandbits(32):08x}'
+
+
+# what a caller does to a fragment it holds between two fits: the list objects stay, the numbers change
+EDITS = ['translate', 'rotate', 'rotate+translate', 'move-fitted-atom', 'move-other-atom', 'rescale', 'swap-two-fitted-atoms']
+
+
+def edit_fragment(rng, base, kind):
+    """the fragment of `base` after the caller has changed its coordinates (same atoms, same subset)"""
+    frag, idx, k = copy.deepcopy(base['frag']), base['idx'], base.get('scale', 1.0)
+    n = len(frag)
+    others = [i for i in range(n) if i not in idx]
+    if kind == 'move-other-atom' and not others:
+        kind = 'translate'
+    if kind in ('rotate', 'rotate+translate'):
+        c0 = cen(frag)
+        frag = shift(apply(quat_to_R(unit_quat(rng)), shift(frag, c0, -1.0)), c0)
+    if kind in ('translate', 'rotate+translate'):
+        frag = shift(frag, [rng.choice([-1, 1]) * rng.uniform(0.5, 20.0) * k for _ in range(3)])
+    if kind in ('move-fitted-atom', 'move-other-atom'):
+        i = rng.choice(idx if kind == 'move-fitted-atom' else others)
+        frag[i] = [c + rng.choice([-1, 1]) * rng.uniform(0.3, 2.0) * k for c in frag[i]]
+    if kind == 'swap-two-fitted-atoms':
+        i, j = rng.sample(idx, 2)
+        frag[i], frag[j] = list(frag[j]), list(frag[i])
+    if kind == 'rescale':   # another unit of length
+        f = rng.choice([0.1, 10.0, 0.529177, 1.889726])
+        frag, k = scaled(frag, f), k * f
+    return dict(base, frag=frag, scale=k)
+
+
+def refit(rng, c):
+    """a qtrfit() problem on the lists of `c` after the caller has changed their numbers (same number of points)"""
+    q, qkind = make_rotation(rng)
+    k = c.get('scale', 1.0)
+    src = c['src'] if rng.random() < 0.5 else apply(quat_to_R(unit_quat(rng)), c['src'])
+    src = shift(src, cen(src), -1.0)
+    noise = rng.choice([0.0, 0.0, 1e-4, 0.3])
+    tgt = apply(quat_to_R(q), src)
+    if noise:
+        tgt = [[x + rng.gauss(0, noise * k) for x in p] for p in tgt]
+    tgt = shift(tgt, cen(tgt), -1.0)
+    return dict(c, src=src, tgt=tgt, quat=q, qkind=qkind, noise=noise, mirror=False, sseed=rng.getrandbits(48))
+
+
+def first_step(rng, **kw):
+    base = make_frag_case(rng, prelude=False, **kw)
+    while len(base['frag']) < 4:
+        base = make_frag_case(rng, prelude=False, **kw)
+    return dict(base, how='first', fid=new_label(rng, 'F'), sid=new_label(rng, 'S'), tid=new_label(rng, 'T'))
+
+
+def next_step(rng, steps, cur, what, **opt):
+    """appends the step(s) of class `what` to `steps`; returns the current state of the main fragment"""
+    if what == 'same-call-again':
+        pick = rng.choice([st for st in steps if st['kind'] == 'frag' and st.get('fid') == cur['fid']])
+        steps.append(dict(pick, how='same-call-again', sseed=rng.getrandbits(48)))
+        return dict(cur, frag=pick['frag'], idx=pick['idx'], scale=pick.get('scale', 1.0), sid=pick['sid'])
+    if what == 'same-fragment-other-target':       # identical fragment and subset, a new target list
+        steps.append(dict(retarget(rng, cur), how=what))
+    elif what == 'target-edited-in-place':         # ... or the caller's target list with new numbers in it
+        last = [st for st in steps if st['kind'] == 'frag' and st.get('fid') == cur['fid']][-1]
+        steps.append(dict(retarget(rng, cur, tid=last['tid']), how=what))
+    elif what == 'edited-in-place':                # the fragment's coordinates changed in its own list objects
+        kind = opt.get('edit') or rng.choice(EDITS)
+        cur = edit_fragment(rng, cur, kind)
+        if (opt.get('outer') or rng.choice(['same', 'new'])) == 'new':    # `[frag[i] for i in subset]` built again
+            cur = dict(cur, sid=new_label(rng, 'S'))
+        steps.append(dict(retarget(rng, cur), how=f'edited-in-place:{kind}'))
+    elif what in ('same-fragment-other-subset', 'subset-changed-in-place'):
+        n = len(cur['frag'])
+        # another selection of atoms: in a new list, or put into the source list the caller already holds
+        idx = rng.sample(range(n), rng.randint(3, n) if what == 'same-fragment-other-subset' else len(cur['idx']))
+        sid = new_label(rng, 'S') if what == 'same-fragment-other-subset' else cur['sid']
+        cur = dict(cur, idx=idx, sid=sid)
+        steps.append(dict(retarget(rng, cur), how=what))
+    elif what == 'other-fragment':
+        steps.append(first_step(rng) | dict(how=what))
+    elif what == 'qtrfit':                         # a plain qtrfit(), repeated on the same lists, then on the edited lists
+        c = dict(make_fit_case(rng, prelude=False), fid=new_label(rng, 'Q'), tid=new_label(rng, 'T'))
+        steps.append(dict(c, how='qtrfit'))
+        steps.append(dict(c, how='qtrfit-again', sseed=rng.getrandbits(48)))
+        if opt.get('edited', rng.random() < 0.5):
+            steps.append(dict(refit(rng, c), how='qtrfit-edited-in-place'))
+    return cur
+
+
+SEQ_STEPS = [('same-call-again', 15), ('same-fragment-other-target', 20), ('target-edited-in-place', 8), ('edited-in-place', 27),
+             ('same-fragment-other-subset', 6), ('subset-changed-in-place', 6), ('other-fragment', 8), ('qtrfit', 10)]
 
 
 def make_seq_case(rng):
-    base = make_frag_case(rng, prelude=False)
-    while len(base['frag']) < 4:
-        base = make_frag_case(rng, prelude=False)
-    steps = [dict(base, how='first')]
+    cur = first_step(rng)
+    steps = [cur]
     for _ in range(rng.randint(1, 5)):
-        r = rng.random()
-        if r < 0.3:      # the identical call again
-            steps.append(dict(rng.choice([st for st in steps if st['how'] in ('first', 'same-fragment-other-target', 'same-call-again')]),
-                              how='same-call-again', sseed=rng.getrandbits(48)))
-        elif r < 0.65:   # identical fragment and subset, other target
-            steps.append(dict(retarget(rng, base), how='same-fragment-other-target'))
-        elif r < 0.75:   # identical fragment, another subset of it
-            n = len(base['frag'])
-            idx = rng.sample(range(n), rng.randint(3, n))
-            steps.append(dict(retarget(rng, dict(base, idx=idx)), how='same-fragment-other-subset'))
-        elif r < 0.85:   # something else in between
-            steps.append(dict(make_frag_case(rng, prelude=False), how='other-fragment'))
-        else:            # a plain qtrfit(), repeated on the same lists
-            c = make_fit_case(rng, prelude=False)
-            steps.append(dict(c, how='qtrfit'))
-            steps.append(dict(c, how='qtrfit-again', sseed=rng.getrandbits(48)))
-    return dict(kind='seq', steps=steps, shared=rng.random() < 0.8, sseed=rng.getrandbits(48))
+        cur = next_step(rng, steps, cur, rng.choices([w for w, _ in SEQ_STEPS], [p for _, p in SEQ_STEPS])[0])
+    return dict(kind='seq', steps=steps, objects=rng.choices(['aliased', 'pooled', 'copied'], [5, 3, 2])[0], sseed=rng.getrandbits(48))
+
+
+def write_in_place(cur, coords):
+    """the caller changes the numbers in a list it holds: the outer list and the rows keep their identity"""
+    del cur[len(coords):]
+    for row, c in zip(cur, coords):
+        for j, x in enumerate(c):
+            if row[j] != x:
+                row[j] = x
+    for c in coords[len(cur):]:
+        cur.append(list(c))
+
+
+class World:
+    """the caller's list objects over a history. `copied`: fresh deep copies for every call; `pooled`: ONE list object
+    per fragment / source list / target list (label `fid` / `sid` / `tid` of the step), updated in place when a later
+    step gives it other numbers; `aliased`: as `pooled`, and a source list holds the row objects of its fragment
+    (`source_atoms = [fragment_atoms[i] for i in subset]`), so moving the fragment moves the source atoms."""
+
+    def __init__(self, mode):
+        self.mode, self.pool = mode, {}
+        # the same history as the heap model sees it (driver op `hist`): every row object the caller ever hands to
+        # fit_fragment() gets an address; `rows` = the numbers it held when first seen, `steps` = the caller's assignments
+        # (found by comparing with what the row held at the previous fit) and the fits as lists of addresses
+        self.keep, self.addr, self.rows, self.cur, self.steps = [], {}, [], [], []
+
+    def trace_fit(self, frag, src, tgt):
+        step = {}
+        for name, lst in (('frag', frag), ('src', src), ('tgt', tgt)):
+            addrs = []
+            for row in lst:
+                a = self.addr.get(id(row))
+                if a is None:
+                    a = self.addr[id(row)] = len(self.keep)
+                    self.keep.append(row)      # kept alive: an address is never given to another object
+                    self.rows.append([float(x) for x in row])
+                    self.cur.append(list(row))
+                elif self.cur[a] != list(row):
+                    self.steps.append(dict(w=a, p=[float(x) for x in row]))
+                    self.cur[a] = list(row)
+                addrs.append(a)
+            step[name] = addrs
+        self.steps.append(step)
+
+    def obj(self, label, coords):
+        cur = self.pool.get(label)
+        if self.mode == 'copied' or cur is None:
+            cur = self.pool[label] = copy.deepcopy(coords)
+        else:
+            write_in_place(cur, coords)
+        return cur
+
+    def source(self, label, frag_obj, st):
+        if self.mode != 'aliased':
+            return self.obj(label, [st['frag'][i] for i in st['idx']])
+        rows = [frag_obj[i] for i in st['idx']]
+        cur = self.pool.get(label)
+        if cur is None:
+            cur = self.pool[label] = rows
+        elif len(cur) != len(rows) or any(a is not b for a, b in zip(cur, rows)):
+            cur[:] = rows
+        return cur
+
+
+def seq_mode(case):
+    return case.get('objects') or ('pooled' if case.get('shared') else 'copied')
 
 
 def impl_seq(case):
-    """one interpreter state for the whole history. With `shared` the caller keeps ONE list object per distinct
-    fragment / subset / point set and hands it to every call (no defensive copies), as application code does."""
+    """one interpreter state for the whole history; the caller's lists are kept, shared and edited as `World` says"""
     Q = fresh_module({})
-    pool = {}
-
-    def obj(x):
-        if not case.get('shared'):
-            return copy.deepcopy(x)
-        key = repr(x)
-        if key not in pool:
-            pool[key] = copy.deepcopy(x)
-        return pool[key]
-
+    world = World(seq_mode(case))
     outs = []
     for st in case['steps']:
         o = {}
         try:
             if st['kind'] == 'fit':
-                src, tgt = obj(st['src']), obj(st['tgt'])
+                src = world.obj(('f', st.get('fid') or repr(st['src'])), st['src'])
+                tgt = world.obj(('t', st.get('tid') or repr(st['tgt'])), st['tgt'])
                 before = (copy.deepcopy(src), copy.deepcopy(tgt))
                 q, U, _sweeps = Q.qtrfit(src, tgt, 30)
                 o['mutated'] = [nm for nm, a, b in (('source_xyz', src, before[0]), ('target_xyz', tgt, before[1])) if differs(a, b)]
@@ -608,9 +800,11 @@ def impl_seq(case):
                          rmsd=float(Q.rmsd(fitted, st['tgt'])), rmsd_before=float(Q.rmsd(st['src'], st['tgt'])),
                          centroid=[float(x) for x in Q.centroid(st['tgt'])])
             else:
-                frag, tgt = obj(st['frag']), obj(st['tgt'])
-                src = obj([st['frag'][i] for i in st['idx']])
+                frag = world.obj(('f', st.get('fid') or repr(st['frag'])), st['frag'])
+                tgt = world.obj(('t', st.get('tid') or repr(st['tgt'])), st['tgt'])
+                src = world.source(('s', st.get('sid') or repr([st['frag'], st['idx']])), frag, st)
                 before = (copy.deepcopy(frag), copy.deepcopy(src), copy.deepcopy(tgt))
+                world.trace_fit(frag, src, tgt)
                 coords, r = Q.fit_fragment(frag, src, tgt)
                 o['mutated'] = [nm for nm, a, b in (('fragment_atoms', frag, before[0]), ('source_atoms', src, before[1]),
                                                     ('target_atoms', tgt, before[2])) if differs(a, b)]
@@ -618,7 +812,7 @@ def impl_seq(case):
         except Exception as e:  # noqa
             o['raise'] = ename(e)
         outs.append(o)
-    return outs
+    return outs, dict(p='C20', op='hist', rows=world.rows, steps=world.steps)
 
 
 def differs(a, b):
@@ -654,9 +848,9 @@ def evaluate(ctx, cases, stream=None):
             impls.append(impl_frag(case))
             units = [(0, u) for u in frag_requests(case)]
         else:
-            outs = impl_seq(case)
+            outs, hist = impl_seq(case)
             impls.append(outs)
-            units = []
+            units = [(-1, ('hist', hist))]
             for si, (st, o) in enumerate(zip(case['steps'], outs)):
                 units += [(si, u) for u in (fit_requests(st, o) if st['kind'] == 'fit' else frag_requests(st))]
         for si, (what, rq) in units:
@@ -675,11 +869,12 @@ def evaluate(ctx, cases, stream=None):
             eval_frag(ctx, case, impls[ci], per[ci, 0]['frag'])
         else:
             ctx.stream('seq')
+            eval_hist(ctx, case, impls[ci], per[ci, -1]['hist'])
             for si, (st, o) in enumerate(zip(case['steps'], impls[ci])):
                 # a failing step is replayed with the history up to it
                 pcase = dict(case, steps=case['steps'][:si + 1])
                 prefix = f'C20|seq|{st["how"]}'
-                tags = ['seq', 'step=' + st['how'], 'objects=shared' if case.get('shared') else 'objects=copied']
+                tags = ['seq', 'step=' + st['how'], 'objects=' + seq_mode(case)]
                 if st['kind'] == 'fit':
                     eval_fit(ctx, st, o, per[ci, si]['fit'], per[ci, si]['cert'], per[ci, si]['rot'], prefix=prefix, pcase=pcase,
                              stream='seq', extra_tags=tags)
@@ -691,6 +886,103 @@ def evaluate(ctx, cases, stream=None):
                              f'of the same lists starts from other coordinates', dict(case=pcase, stream='seq', actual=o['mutated'], expected=[]))
 
 
+# ------------------------------------------------------------------------------------------------
+# the systematic part: small enumerations of the classes a random draw reaches only now and then
+
+def cube_group():
+    """the 24 proper rotations of the cube as exact signed permutations (perm, signs): p -> [sg[i] * p[perm[i]]]"""
+    out = []
+    for perm in ((0, 1, 2), (1, 2, 0), (2, 0, 1), (0, 2, 1), (2, 1, 0), (1, 0, 2)):
+        even = perm in ((0, 1, 2), (1, 2, 0), (2, 0, 1))
+        for sx in (1.0, -1.0):
+            for sy in (1.0, -1.0):
+                for sz in (1.0, -1.0):
+                    if (sx * sy * sz > 0) == even:
+                        out.append((perm, (sx, sy, sz)))
+    return out
+
+
+def ideal_sets():
+    """idealised, axis-aligned, exactly representable coordination polyhedra (all centred on the origin but the last)"""
+    def octa(a, b, c):
+        return [[a, 0.0, 0.0], [-a, 0.0, 0.0], [0.0, b, 0.0], [0.0, -b, 0.0], [0.0, 0.0, c], [0.0, 0.0, -c]]
+    return [('octahedron', octa(1.5, 1.5, 1.5)), ('octahedron-3-arms', octa(1.0, 2.0, 3.0)),
+            ('octahedron+centre', octa(1.5, 1.5, 1.5) + [[0.0, 0.0, 0.0]]),
+            ('cube', [[sx, sy, sz] for sx in (1.0, -1.0) for sy in (1.0, -1.0) for sz in (1.0, -1.0)]),
+            ('box', [[sx, 1.5 * sy, 2.0 * sz] for sx in (1.0, -1.0) for sy in (1.0, -1.0) for sz in (1.0, -1.0)]),
+            ('tetrahedron', [[1.0, 1.0, 1.0], [1.0, -1.0, -1.0], [-1.0, 1.0, -1.0], [-1.0, -1.0, 1.0]]),
+            ('square-pyramid', [[2.0, 0.0, 0.0], [-2.0, 0.0, 0.0], [0.0, 2.0, 0.0], [0.0, -2.0, 0.0], [0.0, 0.0, 3.0], [0.0, 0.0, 0.0]])]
+
+
+def fit_case_of(rng, src, tgt, qkind, shape, scale=1.0, noise=0.0):
+    src = shift(src, cen(src), -1.0)
+    tgt = shift(tgt, cen(tgt), -1.0)
+    return dict(kind='fit', src=src, tgt=tgt, quat=None, qkind=qkind, noise=noise, shape=shape, mirror=False, scale=scale,
+                sseed=rng.getrandbits(48), prelude=[])
+
+
+def systematic_cases(rng):
+    cases = []
+    # (1) every idealised polyhedron under every rotation of the cube group, exact numbers: the 4x4 form has zero and
+    #     exactly equal diagonal elements and exactly vanishing off-diagonal elements in every arrangement (the
+    #     branches `fabs(b) > 0`, `q < 0` / q == 0, equal eigenvalues in the sort, all-zero diagonal); a few in other
+    #     units (binary and decimal factors)
+    group = cube_group()
+    for name, pts in ideal_sets():
+        for gi, (perm, sg) in enumerate(group):
+            k = 1.0 if gi % 4 else rng.choice([2.0 ** -30, 2.0 ** 20, 1e-10, 1e-4, 1e3])
+            src = scaled(pts, k)
+            tgt = [[sg[i] * p[perm[i]] for i in range(3)] for p in src]
+            cases.append(fit_case_of(rng, src, tgt, 'cube-group', 'ideal', scale=k))
+    # (2) the unit of length: one decade after the other from 1e-10 to 1e+6, fit and fragment, exact and noisy
+    for e in range(-10, 7):
+        k = 10.0 ** e
+        for noise in (0.0, 0.02):
+            cases.append(make_fit_case(rng, prelude=False, scale=k, noise=noise, shape='box', rot=(unit_quat(rng), 'random')))
+            cases.append(make_frag_case(rng, prelude=False, scale=k, noise=noise, motion='general'))
+    # (3) next to "no rotation at all": angles from 0.1 rad down to below the rounding unit (off-diagonal elements of the
+    #     form from comparable with to negligible against the differences of the diagonal: the `b / dma` branch, the
+    #     convergence test at its first evaluation), and noise from the rounding unit upwards
+    for e in range(1, 19):
+        cases.append(make_fit_case(rng, prelude=False, scale=1.0, noise=0.0, shape='box', rot=(small_quat(rng, 10.0 ** -e), 'small')))
+    for e in (16, 14, 12, 10, 8, 6):
+        cases.append(make_fit_case(rng, prelude=False, scale=1.0, noise=10.0 ** -e, shape='box',
+                                   rot=(rng.choice([[1.0, 0.0, 0.0, 0.0], unit_quat(rng)]), 'random')))
+    # (3b) idealised polyhedra whose target atoms are off their ideal places by the rounding unit and a little more: the
+    #     off-diagonal elements of the form are then not zero but negligible against the differences of the diagonal
+    #     already in the first sweep (the `b / dma` branch of the rotation angle, `fabs(b) > 0` with a tiny b)
+    for name, pts in ideal_sets():
+        for perm, sg in [group[0]] + rng.sample(group, 2):
+            for e in (17, 15, 13):
+                tgt = [[sg[i] * p[perm[i]] + rng.choice([-1.0, 1.0]) * 10.0 ** -e for i in range(3)] for p in pts]
+                cases.append(fit_case_of(rng, pts, tgt, 'cube-group', 'ideal', noise=10.0 ** -e))
+    # (4) histories on the caller's own list objects: fit, change the numbers in place, fit again - every kind of
+    #     change x (source list kept | built again) x (source rows are the fragment's rows | separate lists), then the
+    #     target list / the selection / the qtrfit() arguments changed in place, and the plain repetitions
+    for mode in ('aliased', 'pooled'):
+        for edit in EDITS:
+            for outer in ('same', 'new'):
+                cur = first_step(rng, scale=1.0, noise=0.0)
+                steps = [cur]
+                cur = next_step(rng, steps, cur, 'edited-in-place', edit=edit, outer=outer)
+                cases.append(dict(kind='seq', steps=steps, objects=mode, sseed=rng.getrandbits(48)))
+        for what in ('target-edited-in-place', 'subset-changed-in-place', 'same-fragment-other-subset'):
+            cur = first_step(rng, scale=1.0, noise=0.0)
+            steps = [cur]
+            next_step(rng, steps, cur, what)
+            cases.append(dict(kind='seq', steps=steps, objects=mode, sseed=rng.getrandbits(48)))
+        steps = []
+        next_step(rng, steps, None, 'qtrfit', edited=True)
+        cases.append(dict(kind='seq', steps=steps, objects=mode, sseed=rng.getrandbits(48)))
+    for mode in ('aliased', 'pooled', 'copied'):
+        for what in ('same-fragment-other-target', 'same-call-again'):
+            cur = first_step(rng, scale=1.0)
+            steps = [cur]
+            next_step(rng, steps, cur, what)
+            cases.append(dict(kind='seq', steps=steps, objects=mode, sseed=rng.getrandbits(48)))
+    return cases
+
+
 def run(ctx):
     ctx.rule = ('fit: centred point sets of 3..30 points (box / planar / one-decimal grid), target = rotated copy '
                 '(random, special: identity, 90, 120, 180 degrees, tiny angles) without noise or with Gaussian noise 1e-4..2 of the unit '
@@ -698,18 +990,25 @@ def run(ctx):
                 'fitted by 3..n of their atoms onto a rigidly moved (+ noisy) copy; rigid motions: rotation about the subset centroid + '
                 'translation, rotation about the subset centroid without net shift, about the origin, about an arbitrary point, pure '
                 'translation, identity; both streams: the whole problem scaled by 1 (half) or 1e-10..1e+6 (half), all deviations '
-                'judged relative to the rms radius of the (fitted) point set; seq: histories of 2..6 calls in one module state - identical '
-                'fragment + subset (the same list objects in 80 %) onto the same / other targets, other subset, other fragments and qtrfit() '
-                'calls in between; distinct by coordinates; '
+                'judged relative to the rms radius of the (fitted) point set; seq: histories of 2..8 calls in one module state on the caller\'s own '
+                'list objects (aliased rows 50 % / one object per list 30 % / copies 20 %): same call again, new target list, target list / '
+                'fragment coordinates / selection / qtrfit arguments changed in place, other subset, other fragments, qtrfit() calls; '
+                'systematic part first (polyhedra x cube group, unit ladder, angle and noise ladders, near-ideal targets, every in-place '
+                'change x list kept/rebuilt x aliased/pooled); distinct by coordinates; '
                 'non-trivial = rotation not one of the special ones or noise present (fit), fitted subset centroid away from the origin (frag)')
     ctx.assumptions = ['point sets are non-degenerate (not collinear; generated, not filtered)',
-                       'theorems are over exact real arithmetic; Jacobi convergence is not proved, its result is certified per case '
-                       '(eigen-residual, Sylvester pivots, sampled quaternions, sampled rotations)',
+                       'theorems are over exact real arithmetic; properness of the returned rotation, scale invariance and the Jacobi '
+                       'invariant are proved for all inputs; Jacobi CONVERGENCE (optimality of the returned quaternion) is not proved, '
+                       'it is certified per case (eigen-residual, Sylvester pivots, sampled quaternions, sampled rotations)',
+                       'histories: the caller passes lists of rows [x, y, z] that exist (theorem hypothesis `StepOk`); rows returned by '
+                       'an earlier fit and handed in again are exercised by the harness only',
                        'every proper rotation is R(u) for a unit quaternion u: hypothesis `hsurj` of optimal_among_proper_rotations']
     nfit = ctx.budget(250, 6000)
     nfrag = ctx.budget(250, 6000)
     nseq = ctx.budget(150, 3000)
-    cases = [make_fit_case(ctx.rng) for _ in range(nfit)] + [make_frag_case(ctx.rng) for _ in range(nfrag)] + \
-            [make_seq_case(ctx.rng) for _ in range(nseq)]
+    # the systematic part comes first and is the same in both tiers (so the quick tier reaches every class by
+    # construction); the random cases follow
+    cases = systematic_cases(ctx.rng) + [make_fit_case(ctx.rng) for _ in range(nfit)] + \
+        [make_frag_case(ctx.rng) for _ in range(nfrag)] + [make_seq_case(ctx.rng) for _ in range(nseq)]
     for i in range(0, len(cases), 400):
         evaluate(ctx, cases[i:i + 400])
